@@ -115,7 +115,7 @@ def run(tier, seed):
     locale_synth.ensure()
     bdir = build.build("asan")
     chk = core.Check(PID, tier, seed)
-    sh = core.parallel(shard_fn, seed=seed, tier=tier, exe=bdir + "/jcdrv", ntexts=3200 if tier == "quick" else 100000, ntrees=1600 if tier == "quick" else 100000)
+    sh = core.parallel(shard_fn, seed=seed, tier=tier, exe=bdir + "/jcdrv", ntexts=16000 if tier == "quick" else 100000, ntrees=8000 if tier == "quick" else 100000)
     chk.absorb(sh)
     seen = {k for k in chk.merged.counters if ".outcome-" in k}
     missing = []
